@@ -36,6 +36,7 @@ class C12(P.Property):
                  "websockets 10.4 client+server protocols, asyncio tasks/locks/timeouts": "real",
                  "event loop selector + clock": "simulated (virtual time)", "TCP": "simulated in memory (ordered reliable streams, seeded latency/segmentation, RST)",
                  "disk": "real files in scratch HOME; every mutation call observed at the seam",
+                 "wall clock + file time stamps": "simulated (time.time and os.stat follow the virtual clock; clock steps, 1 s / 2 s stamp granularity in part of the runs)",
                  "clients": "harness actors speaking the real wire format through the real websockets client"}
     assumptions = ["connections are TCP streams: no loss/duplication/reordering inside a connection",
                    "an unacknowledged request in flight when its connection ends may or may not have been applied"]
